@@ -2,7 +2,11 @@ package command
 
 import (
 	"context"
+	"encoding/json"
 	"math/big"
+
+	"github.com/ThreeDotsLabs/watermill/message"
+	"github.com/formancehq/ledger/pkg/events"
 
 	ledger "github.com/formancehq/ledger/internal"
 	"github.com/formancehq/ledger/internal/bus"
@@ -86,6 +90,91 @@ func (m *zzMonitor) DeletedMetadata(ctx context.Context, targetType string, targ
 
 var _ bus.Monitor = (*zzMonitor)(nil)
 
+// zzBusMonitor sends every monitor call through the real bus.ledgerMonitor and a
+// recording publisher, and decodes what was put on the bus back into zzEvents: the
+// oracle then judges the published payloads, not the arguments.
+type zzBusMonitor struct {
+	zzMonitor
+	real bus.Monitor
+}
+
+type zzPublisher struct{ m *zzBusMonitor }
+
+func (p zzPublisher) Close() error { return nil }
+
+func (p zzPublisher) Publish(topic string, messages ...*message.Message) error {
+	for _, msg := range messages {
+		var env struct {
+			Type    string          `json:"type"`
+			Payload json.RawMessage `json:"payload"`
+		}
+		if err := json.Unmarshal(msg.Payload, &env); err != nil {
+			panic(err)
+		}
+		verifhook.Assert(env.Type == topic, "C16 the message type differs from the topic it is published on")
+		switch env.Type {
+		case events.EventTypeCommittedTransactions:
+			var pl bus.CommittedTransactions
+			if err := json.Unmarshal(env.Payload, &pl); err != nil {
+				panic(err)
+			}
+			for i := range pl.Transactions {
+				p.m.events = append(p.m.events, zzEvent{Kind: "committed", Tx: &pl.Transactions[i], AccountMD: pl.AccountMetadata})
+			}
+		case events.EventTypeRevertedTransaction:
+			var pl bus.RevertedTransaction
+			if err := json.Unmarshal(env.Payload, &pl); err != nil {
+				panic(err)
+			}
+			p.m.events = append(p.m.events, zzEvent{Kind: "reverted", Reverted: &pl.RevertedTransaction, Tx: &pl.RevertTransaction})
+		case events.EventTypeSavedMetadata:
+			var pl bus.SavedMetadata
+			if err := json.Unmarshal(env.Payload, &pl); err != nil {
+				panic(err)
+			}
+			p.m.events = append(p.m.events, zzEvent{Kind: "saved", TargetType: pl.TargetType, TargetID: pl.TargetID, Metadata: pl.Metadata})
+		case events.EventTypeDeletedMetadata:
+			var pl struct {
+				TargetType string          `json:"targetType"`
+				TargetID   json.RawMessage `json:"targetId"`
+				Key        string          `json:"key"`
+			}
+			if err := json.Unmarshal(env.Payload, &pl); err != nil {
+				panic(err)
+			}
+			id := string(pl.TargetID)
+			if pl.TargetType == ledger.MetaTargetTypeAccount {
+				if err := json.Unmarshal(pl.TargetID, &id); err != nil {
+					panic(err)
+				}
+			}
+			p.m.events = append(p.m.events, zzEvent{Kind: "deleted", TargetType: pl.TargetType, TargetID: id, Key: pl.Key})
+		default:
+			verifhook.Assert(false, "C16 unknown event type published")
+		}
+	}
+	return nil
+}
+
+func zzNewBusMonitor() *zzBusMonitor {
+	m := &zzBusMonitor{}
+	m.real = bus.NewLedgerMonitor(zzPublisher{m}, "ledger-1")
+	return m
+}
+
+func (m *zzBusMonitor) CommittedTransactions(ctx context.Context, res ledger.Transaction, accountMetadata map[string]metadata.Metadata) {
+	m.real.CommittedTransactions(ctx, res, accountMetadata)
+}
+func (m *zzBusMonitor) SavedMetadata(ctx context.Context, targetType, id string, md metadata.Metadata) {
+	m.real.SavedMetadata(ctx, targetType, id, md)
+}
+func (m *zzBusMonitor) RevertedTransaction(ctx context.Context, reverted, revert *ledger.Transaction) {
+	m.real.RevertedTransaction(ctx, reverted, revert)
+}
+func (m *zzBusMonitor) DeletedMetadata(ctx context.Context, targetType string, targetID any, key string) {
+	m.real.DeletedMetadata(ctx, targetType, targetID, key)
+}
+
 // zzWorld is one running commander over a store.
 type zzWorld struct {
 	store     *zzStore
@@ -96,6 +185,18 @@ type zzWorld struct {
 
 func zzStart(store *zzStore, locker Locker) *zzWorld {
 	return zzStartWithCache(store, locker, 1024)
+}
+
+// zzStartBus is zzStart with the real bus.ledgerMonitor in front of a recording publisher.
+func zzStartBus(store *zzStore, locker Locker) *zzWorld {
+	bm := zzNewBusMonitor()
+	w := &zzWorld{store: store, monitor: &bm.zzMonitor, ctx: context.Background()}
+	w.commander = New(store, locker, NewCompiler(1024), NewReferencer(), bm)
+	if err := w.commander.Init(w.ctx); err != nil {
+		panic(err)
+	}
+	verifhook.Go("runner", func() { w.commander.Run(w.ctx) })
+	return w
 }
 
 func zzStartWithCache(store *zzStore, locker Locker, cacheSize int) *zzWorld {
